@@ -12,6 +12,7 @@ type params struct {
 	GarbageLens []int
 	Decoys      []int
 	Hellos      []string
+	Encodings   []string
 	PMs         []int
 	Sizes       []int
 	Ignore      []bool
@@ -30,6 +31,7 @@ type scen struct {
 	hello          string
 	pm             int
 	noFaults       bool // mf = 0 for this scenario
+	uPlusP         bool // enc = "uplusp": reference endpoints send the u half of their key as u + p
 }
 
 var allFaultKinds = []string{"flip", "trunc", "drop", "dup", "swap"}
@@ -80,8 +82,12 @@ func (p params) render() (module, cfg string, files map[string][]byte) {
 	var sb strings.Builder
 	sb.WriteString("CONSTANTS\n")
 	fmt.Fprintf(&sb, "  RekeyInterval = %d\n  MaxGarbage = 4095\n", p.RI)
-	fmt.Fprintf(&sb, "  GarbageLens = %s\n  DecoyCounts = %s\n  Hellos = %s\n  PrefixMatches = %s\n",
-		intSet(p.GarbageLens), intSet(p.Decoys), strSet(p.Hellos), intSet(p.PMs))
+	encs := p.Encodings
+	if len(encs) == 0 {
+		encs = []string{"canon"}
+	}
+	fmt.Fprintf(&sb, "  GarbageLens = %s\n  DecoyCounts = %s\n  Hellos = %s\n  Encodings = %s\n  PrefixMatches = %s\n",
+		intSet(p.GarbageLens), intSet(p.Decoys), strSet(p.Hellos), strSet(encs), intSet(p.PMs))
 	fmt.Fprintf(&sb, "  Sizes = %s\n  IgnoreOpts = %s\n  MaxApp = %d\n  MaxFlight = %d\n  Senders = %s\n",
 		intSet(p.Sizes), boolSet(p.Ignore), p.MaxApp, p.MaxFlight, strSet(p.Senders))
 	tn := "FALSE"
@@ -104,7 +110,11 @@ func (p params) render() (module, cfg string, files map[string][]byte) {
 			if s.noFaults {
 				mf = 0
 			}
-			fmt.Fprintf(&mc, "  [gI |-> %d, gR |-> %d, dI |-> %d, dR |-> %d, hello |-> %q, pm |-> %d, mf |-> %d]", s.gI, s.gR, s.dI, s.dR, s.hello, s.pm, mf)
+			enc := "canon"
+			if s.uPlusP {
+				enc = "uplusp"
+			}
+			fmt.Fprintf(&mc, "  [gI |-> %d, gR |-> %d, dI |-> %d, dR |-> %d, hello |-> %q, pm |-> %d, mf |-> %d, enc |-> %q]", s.gI, s.gR, s.dI, s.dR, s.hello, s.pm, mf, enc)
 		}
 		mc.WriteString("}\n====\n")
 		files = map[string][]byte{"MCV2.tla": []byte(mc.String())}
